@@ -29,7 +29,7 @@ RACE_PROPS = {"C04", "C14", "C19", "C16", "C11", "C10", "C18"}
 # quick-tier number of runs per property (plain binary); thorough is time based
 QUICK_RUNS = {
     "default": 16000,
-    "C04": 12000, "C05": 12000, "C11": 76000, "C17": 76000, "C06": 36000, "C08": 8000, "C15": 12000, "C13": 16000, "C09": 12000, "C10": 12000, "C16": 12000, "C19": 4000,
+    "C04": 12000, "C05": 12000, "C11": 92000, "C17": 76000, "C06": 36000, "C08": 8000, "C15": 12000, "C13": 16000, "C09": 12000, "C10": 12000, "C16": 12000, "C19": 4000,
 }
 QUICK_RACE_RUNS = {"default": 3000, "C19": 2000}
 QUICK_DEADLINE_S = 75
